@@ -827,6 +827,10 @@ def _all_int8(d: MDiagram, ts) -> int:
     # rank-0 nodes do not widen the result: numpy 1.x promotes 0-d operands by VALUE (a 0-d int64 holding -1
     # counts as int8), so int8 x int8 x scalar stays int8
     caps = [ts[t].int8 for t in d.nodes if ts[t].arr.ndim > 0]
+    if not caps:
+        # ... but when EVERY operand is 0-d there is nothing to defer to and the ordinary dtype promotion applies
+        # (two 0-d int8 nodes holding 40: 1600 does not fit, numpy answers 64) -- soak seed 926554678202
+        caps = [ts[t].int8 for t in d.nodes]
     if not caps or any(c == 0 for c in caps):
         return 0
     return max(caps)
@@ -1329,14 +1333,16 @@ def replay_case(case: dict) -> dict:
                 res["violation"] = v
             return res
         if "table" in case:
-            if case["table"] == "eps":
-                e = LeviCivitaTensor(case["n"], case["cov"])
-                if not np.array_equal(e.array, W.eps_def(case["n"])):
-                    res["violation"] = mk_violation({"i": 0, "op": "eps"}, "value", f"epsilon({case['n']}) wrong")
-            else:
-                d = KroneckerDelta(case["n"], case["p"])
-                if not np.array_equal(d.array, W.delta_def(case["n"], case["p"])):
-                    res["violation"] = mk_violation({"i": 0, "op": "delta"}, "value", f"delta({case['n']},{case['p']}) wrong")
+            W.evict_caches(3)
+            calls = case.get("history")
+            if calls is None:   # files written before the history form
+                calls = [["e", case["n"], case["cov"]]] if case["table"] == "eps" else [["d", case["n"], case["p"]]]
+            err = None
+            for call in calls:
+                err = _table_call(call)
+            if err is not None:
+                res["violation"] = mk_violation({"i": 0, "op": "eps" if calls[-1][0] == "e" else "delta"}, "value", err)
+            W.evict_caches(3)
             return res
         v, hist, corrupted = run_case(case, None, stats)
         if v is None and case.get("plan"):
@@ -1355,50 +1361,58 @@ def replay_case(case: dict) -> dict:
 # exhaustive part: every entry of epsilon(n) and delta(n, p) for all sizes in range
 
 
+def _table_call(call):
+    """One constructor call of the table check; returns an error text or None."""
+    if call[0] == "e":
+        _, n, cov = call
+        e = LeviCivitaTensor(n, cov)
+        ref = W.eps_ref(n)
+        ok = e.array.shape == ref.shape and np.array_equal(e.array, ref) and e.tensor_shape == ((n, 0) if cov else (0, n))
+        return None if ok else f"epsilon({n}, covariant={cov}) differs from the inversion-parity definition"
+    _, n, p = call
+    d = KroneckerDelta(n, p)
+    ref = W.delta_def(n, p)
+    ok = d.array.shape == ref.shape and np.array_equal(d.array, ref) and d.tensor_shape == (p, p)
+    return None if ok else f"delta({n},{p}) differs from the determinant definition"
+
+
 def exhaustive_tables(tier: str) -> tuple[dict, list]:
-    """Entry-by-entry comparison for every n <= N (and (n,p) in range), cold and warm, both variances."""
+    """Entry-by-entry comparison for every size in range, cold and warm, both variances, in several construction
+    orders (the constructors cache, and may derive one family from the other, so the order of first use is a history
+    the definition must not depend on). A violation's replay is the list of constructor calls since the last
+    eviction."""
     t0 = time.time()
-    nmax = 6 if tier == "quick" else 8
+    nmax = 8   # epsilon(8): 16.7M int8 entries, 0.1 s; n = 9 needs 387 MB
+    cap = 120_000 if tier == "quick" else 2_000_000
+    pairs = [(n, p) for n in range(1, 10) for p in range(1, n + 1) if n ** (2 * p) <= cap]
+    eps_calls = [["e", n, cov] for n in range(1, nmax + 1) for cov in (True, False)]
+    delta_calls = [["d", n, p] for n, p in pairs]
+    orders = {
+        "epsilon ascending": eps_calls,
+        "epsilon descending": eps_calls[::-1],
+        "delta ascending": delta_calls,
+        "delta descending": delta_calls[::-1],
+        "delta with every epsilon cached, then epsilon again": eps_calls + delta_calls + eps_calls,
+        "epsilon with every delta cached": delta_calls + eps_calls,
+    }
     entries = 0
     viol = []
-    sizes_e, sizes_d = [], []
-    for order in ("ascending", "descending"):
+    for order, calls in orders.items():
         W.evict_caches(3)
-        ns = list(range(1, nmax + 1))
-        if order == "descending":
-            ns = ns[::-1]
-        for n in ns:
-            ref = W.eps_def(n) if n > 7 else W.eps_ref(n)
-            for cov in (True, False):
-                for attempt in ("miss-or-hit", "hit"):
-                    e = LeviCivitaTensor(n, cov)
-                    ok = e.array.shape == ref.shape and np.array_equal(e.array, ref) and \
-                        e.tensor_shape == ((n, 0) if cov else (0, n))
-                    entries += ref.size
-                    if not ok:
-                        viol.append({"violation": mk_violation({"i": 0, "op": "eps"}, "value",
-                                                               f"epsilon({n}, covariant={cov}) differs from the "
-                                                               f"inversion-parity definition ({order}, {attempt})"),
-                                     "seed": 0, "replay": {"table": "eps", "n": n, "cov": cov}})
-            if order == "ascending":
-                sizes_e.append(n)
-    pairs = [(n, p) for n in range(1, 6) for p in range(1, 4) if p <= n + 1 and n ** (2 * p) <= 20000]
-    pairs += [(4, 4)] if tier == "thorough" else []
-    for order in ("ascending", "descending"):
-        W.evict_caches(3)
-        for n, p in (pairs if order == "ascending" else pairs[::-1]):
-            ref = W.delta_def(n, p)
+        hist = []
+        for call in calls:
             for attempt in ("miss-or-hit", "hit"):
-                d = KroneckerDelta(n, p)
-                ok = d.array.shape == ref.shape and np.array_equal(d.array, ref) and d.tensor_shape == (p, p)
-                entries += ref.size
-                if not ok:
-                    viol.append({"violation": mk_violation({"i": 0, "op": "delta"}, "value",
-                                                           f"delta({n},{p}) differs from the determinant definition "
-                                                           f"({order}, {attempt})"),
-                                 "seed": 0, "replay": {"table": "delta", "n": n, "p": p}})
-            if order == "ascending":
-                sizes_d.append([n, p])
+                hist.append(call)
+                with seam.paused():
+                    err = _table_call(call)
+                entries += call[1] ** (call[1] if call[0] == "e" else 2 * call[2])
+                if err is not None and not any(v["replay"]["history"][-1] == call for v in viol):
+                    viol.append({"violation": mk_violation({"i": 0, "op": "eps" if call[0] == "e" else "delta"}, "value",
+                                                           f"{err} (order: {order}, {attempt}, call {len(hist)})"),
+                                 "seed": 0, "replay": {"table": "history", "history": list(hist)}})
+    W._EPS_DEF.pop(8, None)   # 16 MB; the workers forked later never need it
+    sizes_e = list(range(1, nmax + 1))
+    sizes_d = [list(x) for x in pairs]
     # large diagrams: chains of k (1,1)-tensors with axes of length 1 (the value is a product of scalars, the cost
     # is nil, only the bookkeeping grows) and edge-less diagrams of k rank-1 nodes
     large = {"chains_ok": [], "products_ok": []}
@@ -1437,7 +1451,8 @@ def exhaustive_tables(tier: str) -> tuple[dict, list]:
             break
     W.evict_caches(3)
     info = {"large_diagram_probes": large, "tables": {"exhaustive": True, "epsilon_sizes": sizes_e, "delta_sizes": sizes_d,
-                       "entries_compared": entries, "orders": ["cold ascending", "cold descending", "warm re-read"],
-                       "out_of_range": f"epsilon(n > {nmax}) (n=9 needs 387 MB) and delta beyond 20000 entries",
+                       "entries_compared": entries, "orders": list(orders) + ["every call repeated (cache hit)"],
+                       "out_of_range": f"epsilon(n > {nmax}) (n=9 needs 387 MB) and delta(n, p) with n > 9 or more than "
+                                       f"{cap} entries",
                        "wall_s": round(time.time() - t0, 1)}}
     return info, viol[:4]
